@@ -484,7 +484,6 @@ func recompile() {
 	}
 }
 
-
 // multiStage: the listener-set combinator.  experimental.MultiFunctionListenerFactory(A, B) must give EACH of its
 // listeners exactly what a single factory gets: the same events, values and - through a stack iterator of its own that
 // every listener may walk - the same call chain at every before-event, whatever was walked at earlier events (deeper or
@@ -548,7 +547,6 @@ func sameButStacks(a, b []Event) bool {
 	return true
 }
 
-
 type chainListener struct {
 	chains *[]string
 }
@@ -599,11 +597,114 @@ func multiRecursion() {
 		for k := 1; k <= 2; k++ {
 			if g := strings.Join(got[k], " "); g != want {
 				rep.Violate(hx.Violation{Kind: "impl-violation", Signature: "C20:multi-factory-stack-iterator-differs:" + eng,
-					What:  fmt.Sprintf("%s: listener %d of MultiFunctionListenerFactory(A, B) is shown other call chains at its before-events than a single factory's listener (run(5), run(1), run(3), run(0), run(4) through f1/f2 recursion)", eng, k),
-					Input: caseInput{Scenario: "multi-recursion", Engine: eng, Listener: "MultiFunctionListenerFactory(all, all)", Note: "run(n) -> f1(n) -> f2(n-1) -> f1(n-1) ...; calls run(5), run(1), run(3), run(0), run(4); each before-event records the function indexes the stack iterator lists"},
+					What:     fmt.Sprintf("%s: listener %d of MultiFunctionListenerFactory(A, B) is shown other call chains at its before-events than a single factory's listener (run(5), run(1), run(3), run(0), run(4) through f1/f2 recursion)", eng, k),
+					Input:    caseInput{Scenario: "multi-recursion", Engine: eng, Listener: "MultiFunctionListenerFactory(all, all)", Note: "run(n) -> f1(n) -> f2(n-1) -> f1(n-1) ...; calls run(5), run(1), run(3), run(0), run(4); each before-event records the function indexes the stack iterator lists"},
 					Expected: want, Actual: g})
 				break
 			}
 		}
 	}
+}
+
+// hostCompiledClosed: a host module is compiled and instantiated under a listener factory and its CompiledModule is then
+// CLOSED while the instance lives (documented as safe); a guest calls its functions: one returns, one panics, one exits.
+// Every before-event - the host function's own included - must be closed by an after- or abort-event, and both engines
+// must deliver the same sequence, with the compiled module open and closed.
+func hostCompiledClosed() {
+	g := wb.New()
+	ok := g.ImportFunc("env", "ok", []byte{wb.I32}, []byte{wb.I32})
+	boom := g.ImportFunc("env", "boom", []byte{wb.I32}, []byte{wb.I32})
+	g.AddFunc(wb.Func{Params: []byte{wb.I32}, Results: []byte{wb.I32}, Export: "run_ok", Body: wb.Cat(wb.LocalGet(0), wb.Call(3))})
+	g.AddFunc(wb.Func{Params: []byte{wb.I32}, Results: []byte{wb.I32}, Body: wb.Cat(wb.LocalGet(0), wb.Call(ok))})
+	g.AddFunc(wb.Func{Params: []byte{wb.I32}, Results: []byte{wb.I32}, Export: "run_boom", Body: wb.Cat(wb.LocalGet(0), wb.Call(5))})
+	g.AddFunc(wb.Func{Params: []byte{wb.I32}, Results: []byte{wb.I32}, Body: wb.Cat(wb.LocalGet(0), wb.Call(boom))})
+	bin := g.Bytes()
+	var per [][2]string
+	for _, eng := range engines {
+		var seqs [2]string
+		for ci, closeCM := range []bool{false, true} {
+			var evs []string
+			ctx := experimental.WithFunctionListenerFactory(context.Background(), experimental.FunctionListenerFactoryFunc(
+				func(def api.FunctionDefinition) experimental.FunctionListener {
+					return &nameListener{name: def.ModuleName() + "." + def.Name() + fmt.Sprint(def.Index()), evs: &evs}
+				}))
+			rt := wazero.NewRuntimeWithConfig(ctx, rtConfig(eng, false))
+			hcm, err := rt.NewHostModuleBuilder("env").
+				NewFunctionBuilder().WithFunc(func(_ context.Context, x uint32) uint32 { return x + 1 }).Export("ok").
+				NewFunctionBuilder().WithFunc(func(_ context.Context, x uint32) uint32 { panic(fmt.Errorf("host error %d", x)) }).Export("boom").
+				Compile(ctx)
+			if err != nil {
+				hx.Fatal("host-compiled-closed: %v", err)
+			}
+			if _, err := rt.InstantiateModule(ctx, hcm, wazero.NewModuleConfig().WithName("env")); err != nil {
+				hx.Fatal("host-compiled-closed: %v", err)
+			}
+			mod, err := rt.InstantiateWithConfig(ctx, bin, wazero.NewModuleConfig().WithName("guest"))
+			if err != nil {
+				hx.Fatal("host-compiled-closed: %v", err)
+			}
+			if closeCM {
+				hcm.Close(ctx)
+			}
+			mod.ExportedFunction("run_ok").Call(ctx, 1)
+			mod.ExportedFunction("run_boom").Call(ctx, 2)
+			mod.ExportedFunction("run_ok").Call(ctx, 3)
+			rt.Close(ctx)
+			seqs[ci] = strings.Join(evs, " ")
+			rep.Case(fmt.Sprintf("host-compiled-closed/%s/%v", eng, closeCM))
+			// bracket check by name
+			var st []string
+			bad := ""
+			for _, e := range evs {
+				switch e[0] {
+				case 'B':
+					st = append(st, e[1:])
+				default:
+					if len(st) == 0 || st[len(st)-1] != e[1:] {
+						bad = "event " + e + " does not close the innermost open call"
+					} else {
+						st = st[:len(st)-1]
+					}
+				}
+				if bad != "" {
+					break
+				}
+			}
+			if bad == "" && len(st) > 0 {
+				bad = "before-events of " + strings.Join(st, ", ") + " are never closed"
+			}
+			if bad != "" {
+				rep.Violate(hx.Violation{Kind: "impl-violation", Signature: "C20:host-module-events-not-bracketed:" + eng,
+					What:     fmt.Sprintf("%s (host CompiledModule closed while its instance lives: %v): %s", eng, closeCM, bad),
+					Input:    caseInput{Scenario: "host-compiled-closed", Engine: eng, Listener: "all", Note: "env.ok returns, env.boom panics; guest run_ok / run_boom call them through an inner function; HostModuleBuilder.Compile + InstantiateModule, CompiledModule.Close before the calls"},
+					Expected: "every before-event closed by exactly one after- or abort-event", Actual: seqs[ci]})
+			}
+		}
+		if seqs[0] != seqs[1] {
+			rep.Violate(hx.Violation{Kind: "impl-violation", Signature: "C20:closing-the-host-compiled-module-changes-events:" + eng,
+				What: eng + ": the listener events of calls into a host module differ depending on whether its CompiledModule was closed (its instance is alive in both runs)", Input: caseInput{Scenario: "host-compiled-closed", Engine: eng, Listener: "all"},
+				Expected: seqs[0], Actual: seqs[1]})
+		}
+		per = append(per, seqs)
+	}
+	if len(per) == 2 && per[0] != per[1] {
+		rep.Violate(hx.Violation{Kind: "impl-violation", Signature: "C20:host-module-events-differ-between-engines",
+			What: "calls into a host module (one returning, one panicking) give different listener events on the two engines", Input: caseInput{Scenario: "host-compiled-closed", Engine: "both", Listener: "all"},
+			Expected: fmt.Sprint(per[0]), Actual: fmt.Sprint(per[1])})
+	}
+}
+
+type nameListener struct {
+	name string
+	evs  *[]string
+}
+
+func (l *nameListener) Before(context.Context, api.Module, api.FunctionDefinition, []uint64, experimental.StackIterator) {
+	*l.evs = append(*l.evs, "B"+l.name)
+}
+func (l *nameListener) After(context.Context, api.Module, api.FunctionDefinition, []uint64) {
+	*l.evs = append(*l.evs, "A"+l.name)
+}
+func (l *nameListener) Abort(context.Context, api.Module, api.FunctionDefinition, error) {
+	*l.evs = append(*l.evs, "X"+l.name)
 }
